@@ -26,6 +26,10 @@ MET = "p2panda_sync::protocols::topic_log_sync::Metrics::"
 SENT, RECV = MET + "sent_bytes", MET + "received_bytes"
 
 
+class LocalityViolation(Exception):
+    pass
+
+
 class MapV(V):
     def __init__(self, name):
         self.name = name
@@ -46,7 +50,7 @@ def make_model(sid_expr):
             op = n.rsplit("::", 1)[-1]
             key = it.deref(args[1]).expr() if len(args) > 1 else None
             if key is not None and key != sid_expr():
-                raise Unrecognised("map `%s` accessed with key %s which is not the event's session id" % (a0.name, key))
+                raise LocalityViolation("map `%s` is accessed with key `%s`, which is not the event's own session id" % (a0.name, key[:120]))
             is_set = "HashSet" in n or "BTreeSet" in n
             if op == "insert":
                 if is_set:
@@ -66,6 +70,8 @@ def make_model(sid_expr):
                 return some(old) if old is not None else none()
             if op in ("contains", "contains_key"):
                 return boolv(key in a0.d)
+            if op in ("retain", "clear", "drain", "iter", "iter_mut", "values", "values_mut", "keys", "extend"):
+                raise LocalityViolation("map `%s` is touched as a whole (`%s`) while one session's event is processed" % (a0.name, op))
             raise Unrecognised("unmodelled map operation %s on %s" % (n, a0.name))
         if n.endswith("::saturating_sub") and len(args) == 2:
             x, y = it.deref(args[0]), it.deref(args[1])
@@ -338,7 +344,14 @@ def run(ctx):
                            "totals is not modelled")
 
     def go():
-        sim, n_words, n_pairs, seen = explore(ctx, 2, 4, 40)
+        try:
+            sim, n_words, n_pairs, seen = explore(ctx, 2, 4, 40)
+        except LocalityViolation as e:
+            ctx.ob("C40.0", "process touches only the bookkeeping of the event's own session", False,
+                   "Aggregator::process: %s — the per-session entries of *other* sessions are read or changed, so one session's "
+                   "end can discard (or double) what another session has already counted" % e,
+                   site="p2panda/src/streams/sync_metrics.rs (Aggregator::process)", key="C40.0:locality")
+            return
         ctx.extra["lifecycle_words"] = n_words
         ctx.extra["two_session_interleavings"] = n_pairs
         ctx.extra["abstract_process_runs"] = sim.runs
